@@ -1,8 +1,10 @@
 package main
 
 import (
+	"encoding/json"
 	"fmt"
 	"os"
+	"os/exec"
 	"path/filepath"
 	"sort"
 	"strings"
@@ -11,6 +13,7 @@ import (
 	"verifsim/core"
 	"verifsim/specgen"
 	"verifsim/stagea"
+	"verifsim/stageb"
 )
 
 // debugSpecs: generate n specs, run the plain lox on each, print acceptance
@@ -96,5 +99,52 @@ func debugSpecs(args []string) {
 	sort.Strings(rs)
 	for _, r := range rs {
 		fmt.Printf("  %4d  %s\n", reasons[r], r)
+	}
+}
+
+// debugC09: run one hand-written specification (JSON of specgen.Spec) through
+// the C09 harness with the given token streams ("a b c" per argument).
+func debugC09(args []string) {
+	data, err := os.ReadFile(args[0])
+	if err != nil {
+		fmt.Fprintln(os.Stderr, err)
+		os.Exit(2)
+	}
+	var spec specgen.Spec
+	if err := json.Unmarshal(data, &spec); err != nil {
+		fmt.Fprintln(os.Stderr, err)
+		os.Exit(2)
+	}
+	spec.Pkg = "g0000"
+	fmt.Println(spec.LexerText() + spec.ParserText())
+	w, err := stageb.BuildFixed("dbg09", []*specgen.Spec{&spec}, false, false)
+	if err != nil {
+		fmt.Fprintln(os.Stderr, err)
+		os.Exit(2)
+	}
+	defer w.Close()
+	for _, stream := range args[1:] {
+		run := map[string]any{"run": map[string]any{"pkg": "g0000", "lexer": "stub", "tokens": strings.Fields(stream)}}
+		b, _ := json.Marshal(run)
+		rp := filepath.Join(w.T.Base, "r.json")
+		os.WriteFile(rp, b, 0o644)
+		out := filepath.Join(w.T.Base, "o.json")
+		cmd := exec.Command(w.Runsim, "-mode", "c09", "-specs", w.SpecsPath, "-out", out, "-replay", rp)
+		cmd.Stderr = os.Stderr
+		cmd.Run()
+		res, _ := os.ReadFile(out)
+		var r struct {
+			Violations []struct {
+				Sig    map[string]string `json:"sig"`
+				Detail string            `json:"detail"`
+			} `json:"violations"`
+		}
+		json.Unmarshal(res, &r)
+		if len(r.Violations) == 0 {
+			fmt.Printf("stream %q: no violation\n", stream)
+		}
+		for _, v := range r.Violations {
+			fmt.Printf("stream %q: %v\n%s\n", stream, v.Sig, v.Detail)
+		}
 	}
 }
